@@ -114,6 +114,35 @@ pub fn gen_jitter_spec(rng: &mut Prng, prop: &str, allowed: &[CF], c16_bias: boo
     if rng.chance(1, 3) {
         clock.fork_skews = (0..8).map(|_| if rng.chance(1, 2) { rng.below(1 << 20) } else { rng.u64() }).collect();
     }
+    let mut marks = marks;
+    // now and then the first collected value is crafted to have a zero half / to be zero
+    if rng.chance(1, 25) {
+        let r = rng.range(1, 3) as usize;
+        let mask = *rng.pick(&[crate::craft::MASK_HI, crate::craft::MASK_HI, crate::craft::MASK_LO, crate::craft::MASK_ALL]);
+        if let Some(d) = crate::craft::solve_deltas(rng, r + 1, mask) {
+            let prefix = crate::craft::crafted_prefix(rng, &d);
+            let shift = prefix.len() as u32;
+            let last = *prefix.last().unwrap();
+            let first = clock.readings.first().copied().unwrap_or(0);
+            let mut readings = prefix;
+            readings.extend(clock.readings.iter().map(|x| last.wrapping_add(x.wrapping_sub(first)).wrapping_add(211)));
+            clock.readings = readings;
+            for m in marks.iter_mut() {
+                m.0 += shift;
+            }
+            spec.rounds = Some(r as u8);
+            spec.variant = "jitter_history_crafted_value".into();
+            // the first operation takes the crafted value in halves
+            let first_ops = match rng.below(4) {
+                0 => vec![Op::U32, Op::U32],
+                1 => vec![Op::U32, Op::U32, Op::U32],
+                2 => vec![Op::U32, Op::CloneThen(Box::new(Op::U32)), Op::U32],
+                _ => vec![Op::U32, Op::Fill(rng.range(0, 4) as u32), Op::U32],
+            };
+            spec.ops.retain(|o| !matches!(o, Op::SetRounds(_)));
+            spec.ops.splice(0..0, first_ops);
+        }
+    }
     spec.clock = Some(clock);
     spec.aux = encode_marks(&marks);
     spec
@@ -251,6 +280,9 @@ fn output_step(
         }
     }
 
+    if let Out::U32(0) = out {
+        st.count("probe:u32_output_zero");
+    }
     for (m2, exp) in cands.iter() {
         if *exp == out && m2.reads() == reads1 {
             p.m = m2.clone();
@@ -468,7 +500,7 @@ impl Scenario for C12 {
         run_jitter_history(spec, st, &JitterRunCfg { prop: "C12", c16: false })
     }
     fn rule(&self) -> String {
-        "Each run: a JitterRng over a scripted clock (SimClock). The script is drawn from a per-run profile (start value, base delta, jitter amplitude) with a per-run random subset of the clock-fault catalogue (stall, const_delta, ramp, backward, jump_pos31, jump_neg31, jump_2p32, zero_reading, coarse100, tiny_var, wrap_u64, big_pause; in one run out of 60 also long_stuck: 3100..9000 consecutive readings at a perfectly constant rate) placed inside collections at a per-run rate, optional skew between clones; rounds in 1..=255 (default 64 when unset); 1..24 operations from next_u32 / next_u64 / fill_bytes(0..40) / timer_stats(bool) / set_rounds / clone / clone_from into a used generator. After EVERY operation the returned value/bytes and the cumulative number of timer readings are compared with an independent executable model of the documented Jitterentropy 2.1.0 procedure run on the same readings. distinct_nontrivial = distinct (set of fault kinds whose marked reading was consumed inside the operation, rounds bucket, op kind, half flag) signatures.".into()
+        "Each run: a JitterRng over a scripted clock (SimClock). The script is drawn from a per-run profile (start value, base delta, jitter amplitude) with a per-run random subset of the clock-fault catalogue (stall, const_delta, ramp, backward, jump_pos31, jump_neg31, jump_2p32, zero_reading, coarse100, tiny_var, wrap_u64, big_pause; in one run out of 60 also long_stuck: 3100..9000 consecutive readings at a perfectly constant rate) placed inside collections at a per-run rate, optional skew between clones; in one run out of 25 the first deltas are SOLVED (GF(2) elimination over the model) so that the first collected value has a zero upper half, a zero lower half or is zero; rounds in 1..=255 (default 64 when unset); 1..24 operations from next_u32 / next_u64 / fill_bytes(0..40) / timer_stats(bool) / set_rounds / clone / clone_from into a used generator. After EVERY operation the returned value/bytes and the cumulative number of timer readings are compared with an independent executable model of the documented Jitterentropy 2.1.0 procedure run on the same readings. distinct_nontrivial = distinct (set of fault kinds whose marked reading was consumed inside the operation, rounds bucket, op kind, half flag) signatures.".into()
     }
     fn assumptions(&self) -> Vec<String> {
         vec![
@@ -489,6 +521,7 @@ impl Scenario for C12 {
             "probe:timer_stats",
             "probe:fork",
             "probe:clone_from",
+            "probe:u32_output_zero",
             "fault:long_stuck",
             "fault:stall",
             "fault:backward",
